@@ -1,0 +1,13 @@
+//go:build verif
+
+package webp
+
+import "github.com/deepteams/webp/internal/lossy"
+
+// VerifArchVP8Tables / VerifArchBoolWriter: what a hand-assembled VP8 key frame
+// needs (property C13, adversarial but valid streams).
+type VerifArchVP8Tables = lossy.VerifArchVP8Tables
+type VerifArchBoolWriter = lossy.VerifArchBoolWriter
+
+func VerifArchTables() VerifArchVP8Tables               { return lossy.VerifArchTables() }
+func VerifArchNewBoolWriter(n int) *VerifArchBoolWriter { return lossy.VerifArchNewBoolWriter(n) }
